@@ -45,6 +45,14 @@ def main():
         open(pf, "w").write(orig)
     if job.get("regenerate"):
         try:
+            extra = job.get("extra_shortcode", [])
+            if extra:
+                # generated definitions are added to the scratch copy's shortcode file, in front of the closing #undef
+                sp = Conf.get_path(InputFile.HEXAGON_PP_SHORTCODE_H)
+                lines = open(sp).read().split("\n")
+                k = max(i for i, l in enumerate(lines) if l.startswith("#undef DEF_SHORTCODE"))
+                lines[k:k] = extra
+                open(sp, "w").write("\n".join(lines))
             p.run_preprocess_steps()
             out["regen"] = {
                 "macros_patched": open(Conf.get_path(InputFile.HEXAGON_PP_MACROS_PATCHED_H)).read(),
